@@ -1,56 +1,77 @@
 -------------------------- MODULE SampleTrack_Trace --------------------------
 (* Trace specification for C28.  Lines recorded from a real                  *)
-(* TrackLocalStaticSample bound to a recording writer:                       *)
-(*   start  [rate, seq0]        clock rate of the codec, initial sequence    *)
-(*                              number given to the track                    *)
-(*   sample [d, drop, pk]       one WriteSample call: duration (ns),         *)
-(*                              PrevDroppedPackets, and the packets that     *)
-(*                              reached the writer during the call:          *)
-(*                              [seq, tsd] with tsd = (timestamp - initial   *)
-(*                              timestamp) mod 2^32 read as signed 32 bit.   *)
-(* The exact elapsed time is accumulated here, in integer arithmetic.        *)
+(* TrackLocalStaticSample bound to one or two recording senders:             *)
+(*   start  [rate, seqopt, seq0, tsopt]  clock rate of the codec; whether    *)
+(*          WithRTPSequenceNumber / WithRTPTimestamp were given (and seq0)   *)
+(*   bind / unbind [b, res]     Bind / Unbind of sender b between samples    *)
+(*   sample [d, drop, recv]     one WriteSample call: duration (ns),         *)
+(*          PrevDroppedPackets, and per sender that is bound (or received    *)
+(*          something) the packets that reached its writer during the call:  *)
+(*          [seq, tsd] with tsd = (timestamp - reference) mod 2^32 read as   *)
+(*          signed 32 bit; the reference is the initial timestamp given to   *)
+(*          the track or, without that option, the first timestamp seen.     *)
+(* The exact elapsed time is accumulated here, in integer arithmetic.  The   *)
+(* stream of the track is what its first listed sender received; all other   *)
+(* senders must have received exactly the same packets (one stream per       *)
+(* track, whoever is bound and whenever they were bound).                    *)
 EXTENDS SampleTrackOps, TraceKit
 
 VARIABLES l, viol, cnt,
           rate,      \* clock rate of the running behaviour
           acc,       \* exact time of all earlier samples and skips
-          prevSeq,   \* sequence number of the last packet seen (initially seq0 - 1)
-          pend       \* sequence numbers skipped by samples that produced no packet
+          prevSeq,   \* sequence number of the last packet seen; -1: none yet and no initial number known
+          pend,      \* sequence numbers skipped by samples that produced no packet
+          base       \* ticks at the reference point of tsd; -1: not fixed yet (no WithRTPTimestamp, nothing seen)
+
+Shift(pk, by) == [i \in DOMAIN pk |-> [seq |-> pk[i].seq, tsd |-> pk[i].tsd + by]]
 
 Preds(e) ==
-  LET pk     == e.pk
+  LET pk0    == IF Len(e.recv) = 0 THEN <<>> ELSE e.recv[1].pk
       skip   == pend + e.drop
       before == AddTime(acc, rate, e.d, e.drop)      \* earlier samples + the duration skipped by this one
+      \* without WithRTPTimestamp the first packet seen defines the origin: nothing to judge on it
+      tsKnown == base >= 0
+      pk     == IF tsKnown THEN Shift(pk0, base) ELSE pk0
+      seqKnown == prevSeq >= 0
   IN {
    P("C28", "SameTsInSample", Len(pk) >= 2, SameTsInSample(pk)),
-   P("C28", "TsNoDrift",      Len(pk) >= 1, TsNoDrift(pk, before)),
-   P("C28", "SeqPlusOne",     Len(pk) >= 2 \/ (Len(pk) = 1 /\ skip = 0),
-        SeqRunPlusOne(pk) /\ (skip = 0 => SeqAfter(pk, prevSeq, 0))),
-   P("C28", "DropSkips",      Len(pk) >= 1 /\ skip > 0,
-        SeqAfter(pk, prevSeq, skip) /\ TsNoDrift(pk, before))
+   P("C28", "TsNoDrift",      Len(pk) >= 1 /\ tsKnown, TsNoDrift(pk, before)),
+   P("C28", "SeqPlusOne",     Len(pk) >= 2 \/ (Len(pk) = 1 /\ skip = 0 /\ seqKnown),
+        SeqRunPlusOne(pk) /\ ((skip = 0 /\ seqKnown) => SeqAfter(pk, prevSeq, 0))),
+   P("C28", "DropSkips",      Len(pk) >= 1 /\ skip > 0 /\ (seqKnown \/ tsKnown),
+        (seqKnown => SeqAfter(pk, prevSeq, skip)) /\ (tsKnown => TsNoDrift(pk, before))),
+   \* every listed sender is bound and got the same packets
+   P("C28", "BindingsAgree",  Len(e.recv) >= 2 \/ (Len(e.recv) = 1 /\ ~e.recv[1].bound),
+        \A i \in DOMAIN e.recv : e.recv[i].bound /\ e.recv[i].pk = e.recv[1].pk)
   }
 
-Init == l = 1 /\ viol = {} /\ cnt = EmptyCount /\ rate = 90000 /\ acc = ZeroTime /\ prevSeq = 0 /\ pend = 0
+Init == l = 1 /\ viol = {} /\ cnt = EmptyCount /\ rate = 90000 /\ acc = ZeroTime /\ prevSeq = 0 /\ pend = 0 /\ base = 0
 
 Step ==
   /\ l <= Len(Trace)
   /\ LET e == Trace[l] IN
        CASE e.ev = "start" ->
               /\ rate' = e.rate /\ acc' = ZeroTime /\ pend' = 0
-              /\ prevSeq' = (e.seq0 + SeqMod - 1) % SeqMod
+              /\ prevSeq' = IF e.seqopt THEN (e.seq0 + SeqMod - 1) % SeqMod ELSE -1
+              /\ base' = IF e.tsopt THEN 0 ELSE -1
               /\ UNCHANGED <<viol, cnt>>
          [] e.ev = "sample" ->
-              LET ps == Preds(e) IN
+              LET ps  == Preds(e)
+                  pk0 == IF Len(e.recv) = 0 THEN <<>> ELSE e.recv[1].pk
+                  before == AddTime(acc, rate, e.d, e.drop)
+              IN
               /\ viol' = viol \cup Failures(ps, e, l)
               /\ cnt'  = Count(cnt, ps)
-              /\ acc'  = AddTime(AddTime(acc, rate, e.d, e.drop), rate, e.d, 1)
-              /\ prevSeq' = IF Len(e.pk) = 0 THEN prevSeq ELSE e.pk[Len(e.pk)].seq
-              /\ pend' = IF Len(e.pk) = 0 THEN pend + e.drop ELSE 0
+              /\ acc'  = AddTime(before, rate, e.d, 1)
+              /\ prevSeq' = IF Len(pk0) = 0 THEN prevSeq ELSE pk0[Len(pk0)].seq
+              /\ pend' = IF Len(pk0) = 0 THEN pend + e.drop ELSE 0
+              \* the first packet seen has tsd = 0 by construction of the reference: it sits at floor(before)
+              /\ base' = IF base < 0 /\ Len(pk0) > 0 THEN FloorTicks(before) - pk0[1].tsd ELSE base
               /\ UNCHANGED rate
-         [] OTHER -> UNCHANGED <<viol, cnt, rate, acc, prevSeq, pend>>      \* reset
+         [] OTHER -> UNCHANGED <<viol, cnt, rate, acc, prevSeq, pend, base>>      \* reset, bind, unbind
   /\ l' = l + 1
 
-Done == l = Len(Trace) + 1 /\ UNCHANGED <<l, viol, cnt, rate, acc, prevSeq, pend>>
+Done == l = Len(Trace) + 1 /\ UNCHANGED <<l, viol, cnt, rate, acc, prevSeq, pend, base>>
 Next == Step \/ Done
 Rep  == Report(l, viol, cnt)
 =============================================================================
